@@ -926,6 +926,7 @@ func tryMain(args []string) int {
 	show := fs.Int("show", 3, "")
 	shrink := fs.Bool("shrink", true, "")
 	thorough := fs.Bool("thorough", false, "")
+	dumpTag := fs.String("dumptag", "", "print the first -show histories holding an op with this tag")
 	fs.Parse(args)
 	cd := Classes[*prop]
 	classes := map[string]int{}
@@ -941,6 +942,18 @@ func tryMain(args []string) int {
 		}
 		for k, v := range o.Probes {
 			probes[k] += v
+		}
+		if *dumpTag != "" && shown["dump"] < *show {
+			for _, op := range h.Ops {
+				if op.Tag == *dumpTag {
+					shown["dump"]++
+					fmt.Printf("--- run %d (tag %s) probes %v\n", i, *dumpTag, o.Probes)
+					for _, l := range h.Describe() {
+						fmt.Println("   ", l)
+					}
+					break
+				}
+			}
 		}
 		if o.Divergence != "" {
 			classes["DIVERGENCE"]++
